@@ -54,9 +54,19 @@ let () =
       let sizes = List.init np (fun _ -> List.init ni (fun _ -> nat_of_int (next ()))) in
       let opt () = if !pos < Array.length t then next () else 0 in
       let v = opt () in let _dtype = opt () in let mb = opt () in
-      (* the buffer size the constructor used by API path v ends up with *)
-      let buf = int_of_nat (c06_ctor_buf (if v = 1 || v = 3 then None else Some (nat_of_int buf))
-                                         (if mb = 0 then None else Some (nat_of_int mb))) in
+      (* the communicator object as the harness builds it on API path v (model of the constructors and special members) *)
+      let explicit = if v = 1 || v = 3 then None else Some (nat_of_int buf) in
+      let macro = if mb = 0 then None else Some (nat_of_int mb) in
+      let one = S O and two = S (S O) and three = S (S (S O)) in
+      let a = c06_vsc_ctor explicit macro one one in
+      let obj = match v with
+        | 4 -> c06_vsc_copy a two
+        | 5 -> let b = c06_vsc_ctor (Some (S O)) macro two two in       (* another map, buffer 1 *)
+               let b = c06_vsc_assign b a false three in c06_vsc_assign b b true (S three)
+        | _ -> a in
+      if int_of_nat obj.vsc_iface <> 1 then failwith "communicator object points to the wrong interface";
+      if not c06_channels_separate then failwith "size and data tags coincide: model assumption broken";
+      let buf = int_of_nat obj.vsc_buf in
       let variable = (mode = 1) and backward = (dir = 1) in
       List.iter (List.iter (fun n -> if int_of_nat n >= w then failwith "size too large for item coding")) sizes;
       let nbuf = nat_of_int buf and nni = nat_of_int ni and nw = nat_of_int w and nnp = nat_of_int np in
@@ -65,9 +75,12 @@ let () =
         | None -> "PRECONDITION asymmetric-interface"
         | Some c0 ->
           let fuel = c06_case_fuel c0 in
-          let (c, stopped) = c06_run fuel sched c0 in
+          let ((c, stopped), k) = c06_run_k fuel sched c0 (c06_counters_init c0) in
+          (* variable-size loops: the counters must be zero exactly when every process has returned (C06_counters_end_of_run) *)
+          let kzero = List.for_all (fun p -> let (a, b) = k (nat_of_int p) in a = O && b = O) (List.init np (fun p -> p)) in
           let triples = List.map (fun l -> (int_of_nat l.l_src, int_of_nat l.l_dst, c06_log l)) c.c_links in
           if not stopped then "OUTOFFUEL"
+          else if variable && c06_returned c <> kzero then "COUNTERS-DISAGREE"
           else if c06_returned c then public ni np triples ^ " ||" ^ deep np c.c_links
           else "HANG " ^ public ni np triples in
       let sched_of seed n = let s = ref (lcg (seed + 12345)) in
@@ -80,7 +93,8 @@ let () =
       let spec = match c06_spec_case backward nni nw nnp sizes es with
         | None -> "PRECONDITION asymmetric-interface"
         | Some tr -> public ni np (List.map (fun ((s, d), g) -> (int_of_nat s, int_of_nat d, g)) tr) in
-      print_string (both false ^ " ## " ^ both true ^ " ## " ^ spec ^ "\n")
+      let okc = if variable then c06_case_ok_var backward nbuf nnp sizes es else c06_case_ok_fixed backward nbuf nnp sizes es in
+      print_string (both false ^ " ## " ^ both true ^ " ## " ^ spec ^ " ## " ^ (if okc then "pre=1" else "pre=0") ^ "\n")
     with Failure m | Invalid_argument m -> print_string ("BADCASE " ^ m ^ "\n"));
     flush stdout
   done with End_of_file -> ())
